@@ -479,6 +479,7 @@ class Reader:
         g["casefold_feat"] = bool(inc & 0x20000)
         g["encrypt_feat"] = bool(inc & 0x10000)
         g["resize_feat"] = bool(co & 0x10)
+        g["ext_attr_feat"] = bool(co & 0x8)
         g["journal_feat"] = bool(co & 0x4)
         g["journal_dev"] = bool(inc & 0x8)
         g["dir_index"] = bool(co & 0x20)
@@ -786,7 +787,9 @@ class Reader:
                 return
             if depth_expect is None:
                 if depth > 5:
-                    errs.append("extent:depth_gt_5")
+                    I.setdefault("info", []).append("extent:depth_%d_gt_5" % depth)
+                if depth > 32:
+                    errs.append("extent:depth_gt_32")
                     return
             elif depth != depth_expect:
                 errs.append("extent:depth_mismatch@%s" % where)
@@ -1178,7 +1181,11 @@ class Reader:
                     errs.append("xattr:ibody_hash:%s" % en["name"])
         # ---- xattr block
         facl = I["facl"]
-        if facl:
+        if not self.has64 and self.creator_os != 1 and u16(I["raw"], 118)[0]:
+            errs.append("xattr:file_acl_high_without_64bit")
+        if facl and not self.ext_attr_feat:
+            errs.append("xattr:file_acl_without_feature")
+        elif facl:
             if not self.valid_blk(facl):
                 errs.append("range:file_acl")
             else:
@@ -1410,7 +1417,7 @@ class Reader:
         n += I["ea_quota_clusters"]
         if I["map"] == "resize":
             unit = self.bs // 512
-            expect = n * unit
+            expect = n * unit * cr
         else:
             huge = self.huge_file and (I["flagbits"] & 0x40000)
             unit = 1 if huge else self.bs // 512
@@ -1894,11 +1901,11 @@ class Reader:
         return O
 
     def quota_summary(self):
-        Q = {}
+        Q = []
         for kind, ino in (("usr", self.usr_quota_inum), ("grp", self.grp_quota_inum), ("prj", self.prj_quota_inum)):
             if not ino:
                 continue
-            q = {"ino": ino, "ok": True, "err": []}
+            q = {"kind": kind, "ino": clip(ino), "ok": True, "err": []}
             I = self.get_inode(ino) if ino <= self.inodes else None
             if I is None:
                 q["ok"] = False
@@ -1912,7 +1919,7 @@ class Reader:
                 if len(hdr) < 8 or u32(hdr, 0)[0] not in (0xD9C101F7, 0xD9C101F8, 0xD9C101F9) or u32(hdr, 4)[0] != 1:
                     q["ok"] = False
                     q["err"].append("quota:bad_header")
-            Q[kind] = q
+            Q.append(q)
         return Q
 
     def mmp_summary(self, fx):
@@ -2093,6 +2100,8 @@ class Reader:
             ibits.update(range(a, b + 1))
         cand = set(ibits)
         cand.update(range(1, self.first_ino))
+        free_csum_bad = []
+        P["free_inode_csum_err"] = free_csum_bad
         isz = self.isize
         for g, d in enumerate(self.gd):
             it = d["it"]
@@ -2109,6 +2118,18 @@ class Reader:
             for k in range(min(len(lo), len(hi))):
                 if lo[k] or hi[k]:
                     cand.add(base + k)
+            if self.meta_csum:
+                zero = bytes(isz)
+                for k in range(len(tb) // isz):
+                    if base + k in cand:
+                        continue
+                    raw = tb[k * isz:(k + 1) * isz]
+                    if raw != zero:
+                        try:
+                            if not self.parse_inode(base + k, raw)["csum_ok"]:
+                                free_csum_bad.append(base + k)
+                        except Exception:
+                            free_csum_bad.append(base + k)
         for ino in sorted(cand):
             I = self.get_inode(ino)
             if I is not None:
@@ -2137,6 +2158,23 @@ class Reader:
                             self.finish_inode(J)
             queue = nxt
         dirs.sort(key=lambda D: D["dir"])
+        if self.encrypt_feat:
+            for D in dirs:
+                I = self.inodes_by_no[D["dir"]]
+                if not I["flagbits"] & 0x800:
+                    continue
+                pol = I["xattrs"].get("idx9.c")
+                for name, t, ft, where, pos in D["ents"]:
+                    if name in (b".", b".."):
+                        continue
+                    if len(name) < 16:
+                        D["err"].append("dir:encrypted_name_too_short@%s+%d" % (where, pos))
+                    J = self.inodes_by_no.get(t)
+                    if J is not None and J["type"] in ("reg", "dir", "lnk"):
+                        if not J["flagbits"] & 0x800:
+                            D["err"].append("dir:unencrypted_inode_in_encrypted_dir@%s+%d" % (where, pos))
+                        elif J["xattrs"].get("idx9.c") != pol:
+                            D["err"].append("dir:encryption_policy_differs@%s+%d" % (where, pos))
         # ---- output: inodes
         inodes_sorted = sorted(self.inodes_by_no.values(), key=lambda I: I["ino"])
         ix_of = {I["ino"]: k + 1 for k, I in enumerate(inodes_sorted)}
